@@ -77,3 +77,33 @@ def register(mut):
     mut('sched-cancel-wrong-default-exception', 'scheduler.h',
         '''        return cancel(id, std::make_exception_ptr(await_canceled_exception()));''',
         '''        return cancel(id, std::make_exception_ptr(value_not_ready_exception()));''', ['C12'])
+    mut('pool-enqueue-ignores-exit', 'thread_pool.h',
+        '''        if (!_exit) {
+            _queue.push(std::move(fn));
+            _cond.notify_one();
+        }''',
+        '''        {
+            _queue.push(std::move(fn));
+            _cond.notify_one();
+        }''', ['C11'])
+    mut('pool-no-notify', 'thread_pool.h',
+        '''            _queue.push(std::move(fn));
+            _cond.notify_one();''',
+        '''            _queue.push(std::move(fn));
+            if (_queue.size() > 1) _cond.notify_one();''', ['C11'])
+    mut('pool-deleter-no-resume', 'thread_pool.h',
+        '''                coro_queue::resume(x->_h);
+            };''',
+        '''                (void)x;
+            };''', ['C11'])
+    mut('pool-stop-joins-self', 'thread_pool.h',
+        '''            if (t.get_id() == me) {''',
+        '''            if (false && t.get_id() == me) {''', ['C11'])
+    mut('pool-worker-skips-exit-check', 'thread_pool.h',
+        '''            if (_exit) break;
+            auto h = std::move(_queue.front());''',
+        '''            if (_exit && _queue.empty()) break;
+            auto h = std::move(_queue.front());''', ['C11'])
+    mut('pool-resume-raw-handle', 'thread_pool.h',
+        '''            enqueue([sp = suspend_point<void>(spt.pop())]() mutable {sp.clear();});''',
+        '''            enqueue([h = spt.pop()]() mutable {coro_queue::resume(h);});''', ['C11'])
